@@ -110,6 +110,8 @@ func runC17(r *Run) {
 	r.rule("C17.R3", "booking balance: remainder-accumulator idiom in AllocateTokens and AllocateTokensToStakers; validator split = commission + (tokens - commission); zero-power arm books everything to the community pool", 8)
 	r.rule("C17.R4", "portions are truncating (MulDecTruncate / QuoTruncate)", 3)
 	r.rule("C17.R5", "the distribution epoch hook is registered before the mint epoch hook", 1)
+	r.rule("C17.R6", "the community tax stays within [0, 1] (outside it the validator share or the remainder is negative and the allocation panics): Params.Validate rejects it, the update message and the genesis state validate their params, and nothing else stores fee-distribution params", 4)
+	c17CommunityTax(r)
 
 	e := effects(w)
 	cat := catalogue(w)
@@ -464,4 +466,138 @@ func runC17(r *Run) {
 		}
 		r.check(iD >= 0 && iM >= 0 && iD < iM, "C17.R5", "hook-order", pos, "distribution hook runs before the mint hook", fmt.Sprintf("epoch hook order: distribution at %d, mint at %d", iD, iM))
 	}
+}
+
+// triBool evaluation of a condition over the two atoms "tax < 0" (a) and "tax > 1" (b) for a non-nil tax.
+// Returns (value, known).
+func evalTaxCond(v *FnView, e ast.Expr, a, b bool) (bool, bool) {
+	switch x := stripParens(e).(type) {
+	case *ast.UnaryExpr:
+		if x.Op == token.NOT {
+			val, ok := evalTaxCond(v, x.X, a, b)
+			return !val, ok
+		}
+	case *ast.BinaryExpr:
+		switch x.Op {
+		case token.LAND:
+			l, lok := evalTaxCond(v, x.X, a, b)
+			rr, rok := evalTaxCond(v, x.Y, a, b)
+			if (lok && !l) || (rok && !rr) {
+				return false, true
+			}
+			return l && rr, lok && rok
+		case token.LOR:
+			l, lok := evalTaxCond(v, x.X, a, b)
+			rr, rok := evalTaxCond(v, x.Y, a, b)
+			if (lok && l) || (rok && rr) {
+				return true, true
+			}
+			return l || rr, lok && rok
+		}
+	case *ast.CallExpr:
+		recv, name, args, ok := methodCall(x)
+		if !ok || lastField(recv) != "CommunityTax" {
+			return false, false
+		}
+		isOne := func(e ast.Expr) bool {
+			s := exprString(e)
+			return strings.HasSuffix(s, "OneDec()") && !strings.Contains(s, "Zero") || s == "sdk.NewDec(1)" || s == "math.LegacyNewDec(1)"
+		}
+		isZero := func(e ast.Expr) bool {
+			s := exprString(e)
+			return strings.HasSuffix(s, "ZeroDec()") || s == "sdk.NewDec(0)" || s == "math.LegacyNewDec(0)"
+		}
+		switch {
+		case name == "IsNil" && len(args) == 0:
+			return false, true
+		case name == "IsNegative" && len(args) == 0:
+			return a, true
+		case name == "IsPositive" && len(args) == 0:
+			return false, false // 0 < tax says nothing about either bound in the three probes used
+		case name == "GT" && len(args) == 1 && isOne(args[0]):
+			return b, true
+		case name == "LTE" && len(args) == 1 && isOne(args[0]):
+			return !b, true
+		case name == "LT" && len(args) == 1 && isZero(args[0]):
+			return a, true
+		case name == "GTE" && len(args) == 1 && isZero(args[0]):
+			return !a, true
+		}
+	case *ast.Ident:
+		if defs := v.defsOf(v.objOf(x)); len(defs) == 1 {
+			return evalTaxCond(v, defs[0], a, b)
+		}
+	}
+	return false, false
+}
+
+func c17CommunityTax(r *Run) {
+	w := r.W
+	pv := w.View("x/feedistribution/types", "Params.Validate")
+	if pv == nil {
+		r.bad("C17.R6", "anchor|Params.Validate", "-", "anchor", "x/feedistribution/types.Params.Validate not found")
+	} else {
+		r.saw(pv.ID())
+		// rejected(a, b): some top-level `if` whose body returns an error is entered
+		rejected := func(a, b bool) bool {
+			for _, st := range pv.Decl.Body.List {
+				ifs, ok := st.(*ast.IfStmt)
+				if !ok || ifs.Init != nil || len(ifs.Body.List) == 0 {
+					continue
+				}
+				rs, isRet := ifs.Body.List[len(ifs.Body.List)-1].(*ast.ReturnStmt)
+				if !isRet || !returnsErr(pv, rs) {
+					continue
+				}
+				if val, known := evalTaxCond(pv, ifs.Cond, a, b); known && val {
+					return true
+				}
+			}
+			return false
+		}
+		r.check(rejected(true, false), "C17.R6", "tax|negative-rejected", pv.pos(pv.Decl), "a negative community tax is rejected", "Params.Validate accepts a negative community tax: the remainder booked to the community pool is negative and AllocateTokens panics in BeginBlock")
+		r.check(rejected(false, true), "C17.R6", "tax|above-one-rejected", pv.pos(pv.Decl), "a community tax above one is rejected", "Params.Validate accepts a community tax above one: the validators' share 1 - tax is negative and AllocateTokens panics in BeginBlock")
+	}
+	// the writers validate
+	okMsg := false
+	if mv := w.View("x/feedistribution/types", "MsgUpdateParams.ValidateBasic"); mv != nil {
+		for _, c := range mv.CallsNamed("Validate") {
+			if strings.HasSuffix(exprString(c.Fun), ".Params.Validate") {
+				if k, _ := mv.failArm(c); k == "return" {
+					okMsg = true
+				}
+			}
+		}
+	}
+	r.check(okMsg, "C17.R6", "writer|msg-validates", "-", "MsgUpdateParams.ValidateBasic returns the error of Params.Validate", "the update message no longer validates its params")
+	okGen := false
+	if gv := w.View("x/feedistribution/types", "GenesisState.Validate"); gv != nil {
+		for _, c := range gv.CallsNamed("Validate") {
+			if strings.HasSuffix(exprString(c.Fun), ".Params.Validate") {
+				if k, _ := gv.failArm(c); k == "return" {
+					okGen = true
+				}
+			}
+		}
+	}
+	r.check(okGen, "C17.R6", "writer|genesis-validates", "-", "GenesisState.Validate returns the error of Params.Validate", "the genesis state no longer validates its params")
+	// nobody else stores the params
+	var others []string
+	for _, v := range w.allViews() {
+		if !inScopeFile(w.relFile(v.Decl.Pos())) {
+			continue
+		}
+		for _, c := range v.CallsNamed("SetParams") {
+			fo := v.callee(c)
+			if fo == nil || fo.Pkg() == nil || !strings.HasSuffix(fo.Pkg().Path(), "x/feedistribution/keeper") {
+				continue
+			}
+			switch v.ID() {
+			case "x/feedistribution/keeper.msgServer.UpdateParams", "x/feedistribution/keeper.Keeper.InitGenesis", "x/feedistribution/module.InitGenesis":
+			default:
+				others = append(others, v.ID())
+			}
+		}
+	}
+	r.check(len(others) == 0, "C17.R6", "writer|only-validated-paths", "-", "fee-distribution params are stored only by the update message handler and InitGenesis", "fee-distribution params are also stored by "+strings.Join(others, ", ")+", which does not go through Params.Validate")
 }
